@@ -160,12 +160,14 @@ impl C16 {
                         let mut names: Vec<String> = undefined.iter().map(|(l, _)| l.clone()).collect();
                         names.sort();
                         names.dedup();
-                        let title_names: Vec<String> = d
+                        // (the message lists them in the order of their first use)
+                        let mut title_names: Vec<String> = d
                             .title
                             .trim_start_matches("Labels not defined: ")
                             .split(", ")
                             .map(|x| x.to_string())
                             .collect();
+                        title_names.sort();
                         if names != title_names || names.is_empty() {
                             acc.violation("C16|labels-not-defined|wrong-names", case, witness("the error does not name exactly the undefined labels", Some(d)));
                             return;
